@@ -1,2 +1,56 @@
-(* C19 -- theorems are being added *)
-From ZK Require Import Cl.
+(* C19 -- CL03 responses mask their secrets.  Pure arithmetic on s = r + c*x, instantiated with the blinding lengths of
+   the model, which are tied to src/cl03/sigma_protocols.rs by the constants regenerated on every run (requests_tied) and
+   by the draw-request correspondence (every logged draw's bit length must equal the model's request). *)
+From ZK Require Import Cl ClArith ClConsts ClMask.
+
+Theorem C19_response_quotient :
+  forall r c x, (0 < c)%Z -> ((r + c * x) / c = x + r / c)%Z.
+Proof. exact response_quotient. Qed.
+Check (C19_response_quotient :
+  forall r c x, (0 < c)%Z -> ((r + c * x) / c = x + r / c)%Z).
+Print Assumptions C19_response_quotient.
+
+Theorem C19_mask_ok :
+  forall r c x k, (2 ^ (k - 1) <= r)%Z -> (0 < c < 2 ^ 256)%Z -> (321 <= k)%Z -> (2 ^ 64 <= (r + c * x) / c - x)%Z.
+Proof. exact mask_ok. Qed.
+Check (C19_mask_ok :
+  forall r c x k, (2 ^ (k - 1) <= r)%Z -> (0 < c < 2 ^ 256)%Z -> (321 <= k)%Z -> (2 ^ 64 <= (r + c * x) / c - x)%Z).
+Print Assumptions C19_mask_ok.
+
+(* what the pinned tree did (F10): a blinding of the secret's own length leaks it *)
+Theorem C19_leak_old :
+  forall r c x k, (0 <= r < 2 ^ k)%Z -> (2 ^ (k - 64) <= c)%Z -> (64 <= k)%Z -> (0 <= (r + c * x) / c - x <= 2 ^ 64)%Z.
+Proof. exact leak_old. Qed.
+Check (C19_leak_old :
+  forall r c x k, (0 <= r < 2 ^ k)%Z -> (2 ^ (k - 64) <= c)%Z -> (64 <= k)%Z -> (0 <= (r + c * x) / c - x <= 2 ^ 64)%Z).
+Print Assumptions C19_leak_old.
+
+Theorem C19_requests_tied :
+  forall CS, sigma_random_bits_requests CS = model_random_bits_requests CS.
+Proof. exact requests_tied. Qed.
+Check (C19_requests_tied :
+  forall CS, sigma_random_bits_requests CS = model_random_bits_requests CS).
+Print Assumptions C19_requests_tied.
+
+Theorem C19_mask_tied :
+  sigma_mask = MASK.
+Proof. exact mask_tied. Qed.
+Check (C19_mask_tied :
+  sigma_mask = MASK).
+Print Assumptions C19_mask_tied.
+
+Theorem C19_suites_masked :
+  masks_enough cl1024_suite && masks_enough cl2048_suite && masks_enough cl3072_suite && masks_enough toy_suite = true.
+Proof. exact suites_masked. Qed.
+Check (C19_suites_masked :
+  masks_enough cl1024_suite && masks_enough cl2048_suite && masks_enough cl3072_suite && masks_enough toy_suite = true).
+Print Assumptions C19_suites_masked.
+
+Theorem C19_nisp2sec_responses_masked :
+  forall CS r c x, (321 <= ln CS + MASK)%Z ->
+  (2 ^ (ln CS + MASK - 1) <= r)%Z -> (0 < c < 2 ^ 256)%Z -> (2 ^ 64 <= (r + c * x) / c - x)%Z.
+Proof. exact nisp2sec_responses_masked. Qed.
+Check (C19_nisp2sec_responses_masked :
+  forall CS r c x, (321 <= ln CS + MASK)%Z ->
+  (2 ^ (ln CS + MASK - 1) <= r)%Z -> (0 < c < 2 ^ 256)%Z -> (2 ^ 64 <= (r + c * x) / c - x)%Z).
+Print Assumptions C19_nisp2sec_responses_masked.
